@@ -8,10 +8,19 @@ mod c15;
 mod c16a;
 pub mod expansion;
 pub mod front;
+pub mod proto;
 
 fn main() {
     vcore::harness::install_quiet_panic_hook();
     let args: Vec<String> = std::env::args().skip(1).collect();
+    if args.first().map(|s| s.as_str()) == Some("dump-proto") {
+        let text = std::fs::read_to_string(&args[1]).expect("file");
+        match proto::proto_text(&text) {
+            Ok(p) => println!("{p}"),
+            Err(e) => println!("ERROR {e}"),
+        }
+        return;
+    }
     let ctx = vcore::harness::Ctx::from_args(&args);
     let code = match ctx.prop.as_str() {
         "C07" => c07::run(ctx),
